@@ -142,9 +142,9 @@ TEXT = {
                       "foreign). C01_node_assembly: a node's k-mers are the oriented keys of its left path (reversed), seed and right path, each "
                       "obtained from its neighbour by extending with one base (K-1 overlap), and its payload is the caller's reduction folded "
                       "over exactly those k-mers' payloads, left path first. Proved by: a 'sealed' invariant over the well-founded walk "
-                      "(ids), refinement of the code-shaped walk to it, and string algebra for the two folds of build_node. The recorded-steps "
-                      "clause in bit form is an executable predicate on the crate's nodes; the model is diffed verbatim with the crate for all "
-                      "three entry points. C01_from_reads: for every read set, K >= 4, both summarizers, every memory budget and every hash order, "
+                      "(ids), refinement of the code-shaped walk to it, and string algebra for the two folds of build_node. C01_steps_recorded: "
+                      "every node-internal step is a good link (sole recorded extension on the leaving side = the base of the step, sole extension "
+                      "on the facing side, no palindrome, join accepted). The model is diffed verbatim with the crate for all three entry points. C01_from_reads: for every read set, K >= 4, both summarizers, every memory budget and every hash order, "
                       "filter -> prune -> compress never panics and the nodes' canonical k-mers are a permutation of the accepted k-mers.",
         "design_ref": "DESIGN.md section 6, C01",
         "level_note": COMMON_NOTE + "The hash map's index order is an input (observed; the theorems hold for every order). C01_from_reads discharges the table "
@@ -183,12 +183,16 @@ TEXT = {
         "level_text": "Proved for every graph of the model: find_link is sound (the returned node's terminal k-mer on the reported side equals the "
                       "queried k-mer, reverse-complemented iff flagged; arrival side = facing side for unflipped and same side for flipped links; "
                       "flipped links only when unstranded), a k-mer is found as a node end exactly when some node starts/ends with it, and link "
-                      "lookups do not depend on extension bytes (so fix_exts' in-place update is order-independent). Symmetry, equality of the "
-                      "adjacency set with the (K+1)-mers of the reads, exactness of the three pruning functions, best-path and path-sequence "
-                      "clauses are evaluated as executable predicates on the crate's answers over pipeline graphs; max_path_beam is not modelled.",
+                      "lookups do not depend on extension bytes (so fix_exts' in-place update is order-independent). Pruning is exact for all "
+                      "three functions (C03_prune_exact: remove_censored_exts keeps a bit iff its target is valid, the sharded variant drops it iff "
+                      "the target was seen but is not valid; C03_valid_exts_exact: get_valid_exts reports a bit iff recorded, resolved by find_link "
+                      "and valid). Every reported edge is a K-1 overlap in walking orientation (edge_overlap, four orientation cases), so for "
+                      "any walk along reported edges sequence_of_path spells exactly the walked nodes' k-mers in order (C03_walk_sequence); "
+                      "max_path always returns such a walk with no node twice (C03_maxPath_walk, both arms). Symmetry of edges and equality of "
+                      "the adjacency set with the (K+1)-mers of the reads are executable predicates on pipeline graphs; max_path_beam is not modelled.",
         "design_ref": "DESIGN.md section 6, C03",
-        "level_note": COMMON_NOTE + "Partial: pipeline-level clauses by execution.",
-        "technique": "Lean 4 proof (case analysis of link resolution) + differential correspondence with executable predicates",
+        "level_note": COMMON_NOTE + "Partial: edge symmetry / adjacency = (K+1)-mers at graph level by execution.",
+        "technique": "Lean 4 proof (case analysis of link resolution, bit-level exactness of pruning, overlap algebra of walks, invariant of the greedy best-path loop) + differential correspondence with executable predicates",
     },
     "C18": {
         "level_text": "Theorem C18_refines: for every node (length >= K >= 1) and every finite sequence of next()/nth(n) calls - any n, on both sides of "
